@@ -31,6 +31,7 @@ class World:
         self.classes = {}
         self.mixins = {}
         self.calls = []
+        self.factories = {}
         world = self
 
         class Proc(Unit):
@@ -68,6 +69,13 @@ class World:
         return [ours[x] for x in k.__mro__ if x in ours]
 
     def factory(self, f):
+        fid, ret = f
+        if fid in self.factories:        # the SAME factory object registered once more (on another class, or twice on one class)
+            return self.factories[fid]
+        self.factories[fid] = self._factory(f)
+        return self.factories[fid]
+
+    def _factory(self, f):
         fid, ret = f
         Proc = self.Proc
         if ret is None:
@@ -108,13 +116,21 @@ def gen_case(rng):
     todo = list(enumerate(plan))
     fid, pidn = 0, 10
 
+    regs = []
+
     def reg():
         nonlocal fid, pidn
         c = rng.choice(defined)
+        if regs and rng.random() < 0.2:
+            # one factory object registered again: on another class of the hierarchy or once more on the same class (same kind of list)
+            kind, _, f = rng.choice(regs)
+            ops.append((kind, c, f))
+            return
         fid += 1
         ret = None if rng.random() < 0.25 else pidn
         pidn += 1
         ops.append((rng.choice(['regpre', 'regpre', 'regpost']), c, (fid, ret)))
+        regs.append(ops[-1])
     # interleave class definitions (subclasses defined later than registrations on their bases) with registrations
     while todo or rng.random() < 0.7:
         if todo and (not defined or rng.random() < 0.4):
@@ -147,7 +163,10 @@ def run_case(ops):
             out_ops.append(o)
             obs.append(None)
         else:
-            obs.append(W.solve(o[1], o[2]))
+            try:
+                obs.append(W.solve(o[1], o[2]))
+            except Exception as e:      # noqa  (a solve of a transport with processors never fails: reported by the oracle)
+                obs.append(dict(calls=[-1], inm=[], outm=[], ret=[], ip_untouched=True, raised=f"{type(e).__name__}: {str(e)[:100]}"))
             out_ops.append(o)
     return out_ops, obs
 
@@ -325,7 +344,9 @@ def run(chk):
             # oracle: property stated directly
             a, b = spec_order(ops, j, o[1], 'regpre'), spec_order(ops, j, o[1], 'regpost')
             what = None
-            if ob['calls'] != a + b:
+            if ob.get('raised'):
+                what = f"solve raised {ob['raised']}; processors in hierarchy/registration order: {a + b}"
+            elif ob['calls'] != a + b:
                 what = f"processors ran in order {ob['calls']}, hierarchy/registration order gives {a + b}"
             elif ob['inm'] != a:
                 what = f"unit.in_profile carries {ob['inm']}, the pre-processor chain yields {a}"
